@@ -26,4 +26,6 @@ def run(ctx):
     ctx.run("C14.RECOMPUTE", "R-ERRDISC", mem.load_tolerant)
     ctx.run("C14.NO-SWALLOW", "R-ERRDISC", zf.no_swallow)
     ctx.run("C14.REWRITE", "R-ORDER", mem.dump_always_writes)
+    ctx.run("C05.META-TOLERANT", "R-FLOW", mem.meta_tolerant)
+    ctx.run("C06.OPTIONAL-TIMESTAMP", "R-FLOW", mem.optional_timestamp)
     ctx.run("C13.CURSOR", "R-DUAL", zf.cursor)
